@@ -117,7 +117,9 @@ class VCSStrategyGit(VCSStrategy):
             "-z",
         ]
         result = execute_command(command, _LOGGER, cwd=self.root)
-        all_files = result.stdout.decode("utf-8").split("\0")
+        # File names are bytes; decode them the way the file system functions
+        # of Python do.
+        all_files = os.fsdecode(result.stdout).split("\0")
         return {Path(file_) for file_ in all_files}
 
     def _find_submodules(self) -> set[Path]:
@@ -129,7 +131,7 @@ class VCSStrategyGit(VCSStrategy):
             cwd=self.root,
         )
         toplevel = Path(
-            result.stdout.decode("utf-8").rstrip("\n") or self.root
+            os.fsdecode(result.stdout).rstrip("\n") or self.root
         ).resolve()
         command = [
             str(self.EXE),
@@ -143,15 +145,12 @@ class VCSStrategyGit(VCSStrategy):
         result = execute_command(command, _LOGGER, cwd=self.root)
         # The final element may be an empty string. Filter it.
         submodule_entries = [
-            entry
-            for entry in result.stdout.decode("utf-8").split("\0")
-            if entry
+            entry for entry in os.fsdecode(result.stdout).split("\0") if entry
         ]
         # Each entry looks a little like 'submodule.submodule.path\nmy_path'.
-        return {
-            (toplevel / entry.splitlines()[1]).resolve()
-            for entry in submodule_entries
-        }
+        # An entry without a path names no directory.
+        paths = (entry.partition("\n")[2] for entry in submodule_entries)
+        return {(toplevel / path).resolve() for path in paths if path}
 
     def is_ignored(self, path: StrPath) -> bool:
         path = relative_from_root(path, self.root)
